@@ -108,8 +108,8 @@ CHECKS.update({
              "held certificate and finalization report is recorded and TLC validates the execution against AlpenglowAbs "
              "(every correct vote must be an enabled abstract action; certificates and finalizations must be justified; "
              "agreement / one chain / no final+skip evaluated after every event).",
-        note="bounded N and slots, no inductive proof; ideal signatures; Byzantine leaders are silent in the simulator "
-             "(equivocating leaders only in the abstract model); 'finalized and skip-certified' is read as DIRECT "
+        note="bounded N and slots, no inductive proof; ideal signatures; the simulator's Byzantine validators equivocate on votes "
+             "and, as leaders, show two different blocks per slot to different halves of the network; 'finalized and skip-certified' is read as DIRECT "
              "finalization (TLC shows an indirectly finalized ancestor's slot can legitimately carry a skip certificate); " + TB,
         technique="TLA+ abstract protocol spec + TLC exhaustive BFS; code->spec trace validation of simulated multi-node executions; Votor replay",
         design="4 C01"),
